@@ -145,14 +145,26 @@ def param_names(tree, xname, vname):
     return names
 
 
-def pricer_source(tree, xname, vname):
-    return f"def pricer({', '.join(param_names(tree, xname, vname))}):\n    return {source(tree, xname, vname)}\n"
+def pricer_source(tree, xname, vname, style="def", defaults=None):
+    """Source of the pricer.  ``style``: "def" (a function called ``pricer``, what a user writes) or
+    "lambda"; ``defaults``: {argument name: python number} gives those arguments default values."""
+    defaults = defaults or {}
+    params = [n if n not in defaults else f"{n}={defaults[n]!r}" for n in param_names(tree, xname, vname)]
+    body = source(tree, xname, vname)
+    if style == "lambda":
+        return f"pricer = lambda {', '.join(params)}: {body}\n"
+    return f"def pricer({', '.join(params)}):\n    return {body}\n"
 
 
-def compile_pricer(tree, xname, vname):
+#: every compiled pricer lives in a module of this name and is called ``pricer`` (or is a lambda): like the
+#: functions a user writes in one script, they all share (__module__, __qualname__) while their signatures differ
+USER_MODULE = "user_pricers"
+
+
+def compile_pricer(tree, xname, vname, style="def", defaults=None):
     import torch
-    ns = {"torch": torch}
-    exec(pricer_source(tree, xname, vname), ns)
+    ns = {"torch": torch, "__name__": USER_MODULE}
+    exec(pricer_source(tree, xname, vname, style, defaults), ns)
     return ns["pricer"]
 
 
